@@ -211,7 +211,11 @@ def props_check(pid):
         return res
     text = open(src).read()
     res["theorems"] = re.findall(r"^\s*(?:Theorem|Corollary)\s+([A-Za-z0-9_']+)", text, re.M)
-    rc, out = sh("timeout 900 coqc -Q . DV Props/%s.v" % pid, cwd=COQ, timeout=1000)
+    # compiled into a private output file: concurrent runs of the same check must not overwrite each other's Props/<id>.vo
+    tmpd = os.path.join(COQ, "Run", "gen", "props_%s_%d" % (pid, os.getpid()))
+    os.makedirs(tmpd, exist_ok=True)
+    rc, out = sh("timeout 900 coqc -Q . DV -o %s Props/%s.v" % (os.path.join(tmpd, pid + ".vo"), pid), cwd=COQ, timeout=1000)
+    shutil.rmtree(tmpd, ignore_errors=True)
     res["log"] = out[-6000:]
     res["ok"] = rc == 0
     # parse Print Assumptions blocks
